@@ -162,6 +162,21 @@ def segs_of(block):
     return merged
 
 
+_SCRATCH = []
+
+
+def _scratch_dir():
+    import atexit
+    import shutil
+    import tempfile
+
+    if not _SCRATCH:
+        d = tempfile.mkdtemp(prefix="a816verif-")
+        _SCRATCH.append(d)
+        atexit.register(shutil.rmtree, d, True)
+    return _SCRATCH[0]
+
+
 class virtual_files:
     """Files visible to the code under test under relative names: the symx virtual file system in
     symbolic mode, real files in a scratch directory (cwd) in concrete mode.  `outputs` names
@@ -180,20 +195,76 @@ class virtual_files:
                 shims.VFS[k] = v
             for k in self.outputs:
                 shims.VFS_OUT[k] = None
+            self._patch_existence(shims)
         else:
             import os
-            import tempfile
 
+            # one scratch directory per process: a file that a later assembly provides again with the same bytes is the
+            # SAME file (same path, same mtime), as it is for a user who assembles twice; other files are removed
             self.old = os.getcwd()
-            self.tmp = tempfile.mkdtemp(prefix="a816verif-")
+            self.tmp = _scratch_dir()
             os.chdir(self.tmp)
-            for k, v in self.files.items():
+            wanted = {os.path.normpath(k): (v.encode("utf-8") if isinstance(v, str) else bytes(v)) for k, v in self.files.items()}
+            for root, _dirs, names in os.walk(".", topdown=False):
+                for nm in names:
+                    rel = os.path.normpath(os.path.join(root, nm))
+                    if rel not in wanted:
+                        os.remove(rel)
+            for k, data in wanted.items():
                 d = os.path.dirname(k)
                 if d:
                     os.makedirs(d, exist_ok=True)
+                if os.path.exists(k):
+                    with open(k, "rb") as f:
+                        if f.read() == data:
+                            continue
                 with open(k, "wb") as f:
-                    f.write(v.encode("utf-8") if isinstance(v, str) else bytes(v))
+                    f.write(data)
         return self
+
+    def _patch_existence(self, shims):
+        """os.path.exists / isfile, Path.exists / is_file and os.stat answer for the virtual files too
+        (code that looks a file up before opening it must see the same files that open() sees)."""
+        import os
+        import pathlib
+
+        def key(p):
+            try:
+                return os.path.normpath(os.fspath(p))
+            except TypeError:
+                return None
+
+        def virtual(p):
+            k = key(p)
+            return k is not None and (k in shims.VFS or any(os.path.normpath(x) == k for x in shims.VFS))
+
+        saved = (os.path.exists, os.path.isfile, pathlib.Path.exists, pathlib.Path.is_file, os.stat)
+        self._saved_existence = saved
+
+        os.path.exists = lambda p: virtual(p) or saved[0](p)
+        os.path.isfile = lambda p: virtual(p) or saved[1](p)
+        pathlib.Path.exists = lambda self_, *a, **k: virtual(self_) or saved[2](self_, *a, **k)
+        pathlib.Path.is_file = lambda self_, *a, **k: virtual(self_) or saved[3](self_, *a, **k)
+
+        def stat(p, *a, **k):
+            if virtual(p):
+                v = shims.VFS.get(key(p))
+                try:
+                    n = len(v)
+                except Exception:  # noqa: BLE001  (blob of symbolic length)
+                    n = 0
+                return os.stat_result((0o100644, 0, 0, 1, 0, 0, n, 0, 0, 0), {"st_atime_ns": 0, "st_mtime_ns": 0, "st_ctime_ns": 0})
+            return saved[4](p, *a, **k)
+
+        os.stat = stat
+
+    def _unpatch_existence(self):
+        import os
+        import pathlib
+
+        if getattr(self, "_saved_existence", None):
+            os.path.exists, os.path.isfile, pathlib.Path.exists, pathlib.Path.is_file, os.stat = self._saved_existence
+            self._saved_existence = None
 
     def written(self, name):
         """Content written to output `name`: list of ('write', data)/('seek', pos) ops (symbolic) or bytes."""
@@ -213,13 +284,12 @@ class virtual_files:
         if self.cx.symbolic:
             from symx import shims
 
+            self._unpatch_existence()
             for k in self.files:
                 shims.VFS.pop(k, None)
             self._ops = {k: shims.VFS_OUT.pop(k, None) for k in self.outputs}
         else:
             import os
-            import shutil
 
             os.chdir(self.old)
-            shutil.rmtree(self.tmp, ignore_errors=True)
         return False
